@@ -38,11 +38,15 @@ fn main() {
             out.flush().unwrap();
             continue;
         }
+        if let Some(picks) = &c.macro_sched {
+            sched::start(picks.clone());
+        }
         let res = std::panic::catch_unwind(std::panic::AssertUnwindSafe(|| gen_k3::dispatch(&c, &hdr)));
+        let (exhausted, used) = sched::stop();
         let res = match res {
             Ok(r) => r,
             Err(_) => "P".to_string(),
         };
-        writeln!(out, "id={} res={} {} {}", c.id, res, hdr.borrow(), observations()).unwrap();
+        writeln!(out, "id={} res={} {} {} sched_exhausted={} picks_used={}", c.id, res, hdr.borrow(), observations(), exhausted as u8, used).unwrap();
     }
 }
